@@ -33,6 +33,7 @@ func provesAtLeast(fn *ssa.Function, pa *Path, all []*Path, t *Term, k int64) bo
 func lexerRules(ctx *Ctx, r *Result) {
 	p := ctx.P
 	r.rule("R13.6", "parseScheme and parsePort report success only after consuming at least one byte of their argument (rest = str[k:], k ≥ 1)", 2)
+	r.rule("R13.11", "parseScheme and parsePort take the longest token (maximal munch): the cut is at the length bound or in front of a byte that failed the class test; parseScheme returns exactly the consumed prefix", 2)
 	r.rule("R13.7", "fastParseHost: step table of the domain/IPv4 scan — `.` after `.` fails; a digit at a label start sets the IPv4 guess, any other label byte at a label start clears it, inside a label it is kept; the scan stops at the first byte outside the host alphabet and returns what it scanned", 8)
 	r.rule("R13.8", "the IDNA profile used for domain hosts is idna.New(BidiRule, ValidateLabels(true), StrictDomainName(true), VerifyDNSLength(true))", 1)
 
@@ -48,6 +49,7 @@ func lexerRules(ctx *Ctx, r *Result) {
 		r.Paths += len(paths)
 		arg := "param:" + fn.Params[0].Name()
 		bad := strings.Join(x.Problems, ";")
+		bad11 := ""
 		n := 0
 		for _, pa := range paths {
 			if pa.End != "return" || len(pa.Rets) != 3 {
@@ -66,12 +68,58 @@ func lexerRules(ctx *Ctx, r *Result) {
 				bad = fmt.Sprintf("%s reports success and returns %s as the unconsumed input: nothing (or not a suffix of the argument) was consumed {%s}", name, rest.Key(), shortAtoms(pa))
 			case rest.Args[1].IsConst("_") || !provesAtLeast(fn, pa, paths, rest.Args[1], 1):
 				bad = fmt.Sprintf("%s reports success with the unconsumed input %s, whose offset is not provably ≥ 1 {%s}", name, rest.Key(), shortAtoms(pa))
+			default:
+				// R13.11 maximal munch: the token ends where the scan stopped — at
+				// the bound, or at a byte that failed the class test — not earlier
+				// (`httpx://…` must not be lexed as `http` + `x://…`)
+				// (positions as linear forms: the counter may run over a sub-slice
+				// of the argument, the cut being offset + counter)
+				I := rest.Args[1]
+				z := newZB()
+				cut := z.lin(I)
+				sameUpToConst := func(l lin) bool { d := cut.add(l, -1); return d.isConst() }
+				stopped := false
+				for _, a := range pa.Atoms {
+					if a.Pos {
+						continue
+					}
+					if a.T.Op == "bin" && a.T.Name == "<" && len(a.T.Args) == 2 && !a.T.Args[0].IsConst("0") && sameUpToConst(z.lin(a.T.Args[0])) && a.T.Args[0].Op != "const" {
+						stopped = true // the loop guard counter < bound is false
+					}
+					a.T.Mentions(func(s *Term) bool {
+						if s.Op != "index" || len(s.Args) != 2 {
+							return false
+						}
+						off := linConst(0)
+						base := s.Args[0]
+						if base.Op == "slice" && len(base.Args) == 4 && base.Args[0].Key() == arg {
+							if !base.Args[1].IsConst("_") {
+								off = z.lin(base.Args[1])
+							}
+						} else if base.Key() != arg {
+							return false
+						}
+						if d := cut.add(z.lin(s.Args[1]), -1).add(off, -1); d.isConst() && d.c == 0 {
+							stopped = true // the byte at the cut failed a test
+						}
+						return false
+					})
+				}
+				if !stopped {
+					bad11 = fmt.Sprintf("%s cuts its token at %s without the scan having stopped there (neither the bound reached nor the next byte rejected): a longer token of the documented form is split {%s}", name, I.Key(), shortAtoms(pa))
+				}
+				if name == "parseScheme" {
+					if tok := pa.Rets[0]; tok.Op != "slice" || tok.Args[0].Key() != arg || !tok.Args[1].IsConst("_") || tok.Args[2].Key() != I.Key() {
+						bad11 = fmt.Sprintf("parseScheme returns %s as the scheme, which is not the consumed prefix str[:%s]", tok.Key(), I.Key())
+					}
+				}
 			}
 		}
 		if n == 0 {
 			bad = "no success path found"
 		}
 		r.check(bad == "", "R13.6", name+": success ⇒ consumed ≥ 1 byte", p.Pos(fn.Pos()), bad, len(paths))
+		r.check(bad11 == "", "R13.11", name+": the token ends where the scan stopped", p.Pos(fn.Pos()), bad11, len(paths))
 	}
 
 	// ---- R13.8 -----------------------------------------------------------
